@@ -730,11 +730,16 @@ CHECKS = {f.__name__[4:]: f for f in (chk_assoc, chk_ident_inv, chk_comm, chk_cl
                                       chk_equality, chk_class_number, chk_jacobian_count)}
 
 
+CHECK_TIMEOUT = 30  # seconds per single check (the slowest legitimate one takes < 2 s)
+
+
 def run_check(ctx, G, name, args, nontrivial=True):
     ctx.case((G.name, name, repr(args)[:200]), nontrivial)
     ctx.count(f'{G.spec["family"]}:{name}')
     try:
-        res = CHECKS[name](G, args)
+        res = _with_alarm(CHECK_TIMEOUT, CHECKS[name], G, args)
+    except _Timeout:
+        res = (f'terminates within {CHECK_TIMEOUT} s', 'still running (non-termination)')
     except Exception as exc:  # noqa: BLE001  an exception in a group operation on valid elements
         res = ('no exception', f'{type(exc).__name__}: {exc}')
     if res is not None:
@@ -781,7 +786,9 @@ def replay(ctx, data):
     except Exception as exc:  # noqa: BLE001
         return False, f"constructing {data['group']} raised {type(exc).__name__}: {exc}"
     try:
-        res = CHECKS[data['check']](G, data['args'])
+        res = _with_alarm(CHECK_TIMEOUT, CHECKS[data['check']], G, data['args'])
+    except _Timeout:
+        res = (f'terminates within {CHECK_TIMEOUT} s', 'still running (non-termination)')
     except Exception as exc:  # noqa: BLE001
         res = ('no exception', f'{type(exc).__name__}: {exc}')
     if res is None:
